@@ -166,10 +166,22 @@ func Project(recs []string, keys []string, withErrors bool) []string {
 		want[k] = true
 	}
 	var out []string
+	seenErr := map[string]bool{}
 	for _, r := range recs {
 		if strings.HasPrefix(r, "E ") {
 			if withErrors {
-				out = append(out, r)
+				// A positioned error is compared by its position only: the properties say that a fault
+				// is reported and where, not in which words, so a reworded message (which could move the
+				// class) is not a difference. Position-less errors keep their class.
+				if !strings.HasPrefix(r, "E -:0:0:") {
+					if i := strings.LastIndexByte(r, ':'); i > 0 {
+						r = r[:i]
+					}
+				}
+				if !seenErr[r] {
+					seenErr[r] = true
+					out = append(out, r)
+				}
 			}
 			continue
 		}
